@@ -86,6 +86,35 @@ func ruleR111(p *Program, r *Report) {
 		r.Bad("R11.1", name, "masked exit", p.Pos(fn.Pos()), "no exit returns the masking pattern: an unauthorised reader gets the stored bytes")
 		return
 	}
+	// on the masking path (after the decryption attempt that a pattern exit follows) nothing but the pattern or the
+	// decryption result leaves the function: handing back the stored value there - with or without an error, which
+	// the decrypt handler above swallows - delivers the ciphertext to the reader
+	for _, c := range procCalls {
+		masking := false
+		for _, pr := range patternRets {
+			if c.Block().Dominates(pr.Block()) {
+				masking = true
+			}
+		}
+		if !masking {
+			continue
+		}
+		for _, ret := range returnsOf(fn) {
+			if isRecoverBlock(ret.Block()) || !c.Block().Dominates(ret.Block()) {
+				continue
+			}
+			fromPattern := false
+			for v := range backClosure(retValue(ret, 0)) {
+				if cc, ok := v.(*ssa.Call); ok && cc.Common().IsInvoke() && cc.Common().Method.Name() == "GetMaskingPattern" {
+					fromPattern = true
+				}
+			}
+			if fromPattern || isProcResult(retValue(ret, 0)) != nil {
+				continue
+			}
+			r.Bad("R11.1", name, "masking path exit "+retText(p, ret), p.Pos(ret.Pos()), "an exit of the masking path returns something that is neither the pattern nor the decryption result (the stored value, whatever the error beside it): the decrypt handler answers an error by passing the container on, so the reader receives the ciphertext")
+		}
+	}
 	// the decrypted value is returned only when err == nil and !bytes.Equal(newData, data)
 	for _, ret := range plainRets {
 		c := isProcResult(retValue(ret, 0))
@@ -278,4 +307,8 @@ func init() {
 	mut("C11", "pg factory keeps the plain decryptor", "decryptor/postgresql/proxy.go", "		decryptorDataProcessor, err = masking.NewProcessor(registryHandler)", "		_, err = masking.NewProcessor(registryHandler)", "R11.3", "decrypt handler built over")
 	mut("C11", "negative plaintext length accepted", "masking/common/patterns.go", "	if plaintextLength < 0 {\n		return ErrInvalidPlaintextLength\n	}\n", "", "R11.4", "negative plaintext length")
 	mut("C11", "validation error ignored", "encryptor/base/config/encryptionSettings.go", "		if err = maskingCommon.ValidateMaskingParams(s.MaskingPattern, s.PartialPlaintextLenBytes, s.PlaintextSide, s.GetEncryptedDataType()); err != nil {\n			return err\n		}", "		if err = maskingCommon.ValidateMaskingParams(s.MaskingPattern, s.PartialPlaintextLenBytes, s.PlaintextSide, s.GetEncryptedDataType()); err != nil {\n			err = nil\n		}", "R11.4", "validation error rejects")
+}
+
+func init() {
+	mut("C11", "keystore failures are reported with the stored value instead of being masked", "masking/dataProcessor.go", "		if err != nil || bytes.Equal(newData, data) {\n			logger.Debugln(\"Mask data\")", "		if err != nil && len(data) > 1<<20 {\n			return data, err\n		}\n		if err != nil || bytes.Equal(newData, data) {\n			logger.Debugln(\"Mask data\")", "R11.1", "masking path exit")
 }
